@@ -491,7 +491,18 @@ impl Session {
                 self.quiesce();
                 let r = crate::suite_crash::dir_check(self);
                 let facts = crate::suite_crash::LAST_DIR_FACTS.lock().unwrap().pop().unwrap_or_default();
-                format!("{}#{}", r, facts)
+                // not exact: let one more collection run (nothing is pinned now) and look again;
+                // what that collection removes was merely not reclaimed when its last holder let go
+                let after = if r == "exact" {
+                    String::new()
+                } else {
+                    self.db().verif_collect_garbage();
+                    self.quiesce();
+                    let r2 = crate::suite_crash::dir_check(self);
+                    let _ = crate::suite_crash::LAST_DIR_FACTS.lock().unwrap().pop();
+                    format!("#AFTERGC:{}", r2)
+                };
+                format!("{}#{}{}", r, facts, after)
             }
             b'V' => {
                 // the events since the previous V token
